@@ -57,13 +57,13 @@ Proof.
 Qed.
 
 (* ------------------------------------------------------------ (lambda ...) evaluates to a closure *)
-Lemma exec4_lam s0 p lamp lamF caps sc ps cs body tail lv rho cvals :
+Lemma exec4_lam s0 p lamp lamF caps sc ps cs bodies tail lv rho cvals :
   lam_in s0 lamp lamF -> l_envmap lamF = ScopeProofs.enum_args (l_args lamF) 0 ++ caps ->
   Forall2 (pname s0) (l_args lamF) ps ->
   Forall2 (fun e x => pname s0 (fst e) x /\ exists k, snd e = BIofEnvironment k /\ pindex x sc = Some k) caps cs ->
-  closure_code s0 lamp ps cs body ->
+  closure_code s0 lamp ps cs bodies ->
   Forall2 (fun x v => exists i, pindex x sc = Some i /\ nth_error lv (N.to_nat i) = Some v) cs cvals ->
-  exec4 ob s0 p [VOp OMovImmediate; VPtr lamp; VAcc; VOp OClosureAcc] tail lv rho (R4Clo ps cs body cvals) rho.
+  exec4 ob s0 p [VOp OMovImmediate; VPtr lamp; VAcc; VOp OClosureAcc] tail lv rho (R4Clo ps cs bodies cvals) rho.
 Proof.
   intros Hlam Hem Fa Fc CC Fv m lp bc X MI Hc Hs Hip G L _. left.
   change [VOp OMovImmediate; VPtr lamp; VAcc; VOp OClosureAcc]
@@ -200,9 +200,9 @@ Proof. intros R H. induction H; constructor; [eapply vrep4_ext; eassumption|assu
 (* from the first instruction (ENTER) of a closure entered with n arguments above the base B and
    the return information (e, l0, i0) to the state after its RET — or after the RET of a frame
    that a tail call of the body put in its place *)
-Lemma callee_run4 ps cs body cvals n B e l0 i0 vs rs rho1 r rho2 m5 lamp :
-  seq_ok (ps ++ cs) (rs ++ cvals) rho1 body r rho2 ->
-  minv m5 -> vrep4 m5 (acc m5) (R4Clo ps cs body cvals) ->
+Lemma callee_run4 ps cs bodies cvals n B e l0 i0 vs rs rho1 r rho2 m5 lamp :
+  seq_ok (ps ++ cs) (rs ++ cvals) rho1 bodies r rho2 ->
+  minv m5 -> vrep4 m5 (acc m5) (R4Clo ps cs bodies cvals) ->
   (exists cp cep, acc m5 = VPtr cp /\ heap_get (hp m5) cp = Ok (VClosure lamp cep)) -> ip m5 = (lamp, 0) ->
   length rs = length ps -> n = len ps ->
   sp m5 = B + n + 3 -> sget m5 (B + n + 1) = VArgc n -> sget m5 (B + n + 2) = VEp e ->
@@ -305,11 +305,11 @@ Proof.
 Qed.
 
 (* ------------------------------------------------------------ application of a closure *)
-Lemma exec4_app_closure s0 p ca cf n (tail : bool) lv rho rs rho1 ps cs body cvals rho2 r rho3 :
+Lemma exec4_app_closure s0 p ca cf n (tail : bool) lv rho rs rho1 ps cs bodies cvals rho2 r rho3 :
   exec_args4 ob s0 p ca n lv rho rs rho1 ->
-  exec4 ob s0 (p + len ca + 2) cf false lv rho1 (R4Clo ps cs body cvals) rho2 ->
+  exec4 ob s0 (p + len ca + 2) cf false lv rho1 (R4Clo ps cs bodies cvals) rho2 ->
   length rs = length ps -> n = len ps ->
-  seq_ok (ps ++ cs) (rs ++ cvals) rho2 body r rho3 ->
+  seq_ok (ps ++ cs) (rs ++ cvals) rho2 bodies r rho3 ->
   exec4 ob s0 p (ca ++ [VOp OPushImmediate; VArgc n] ++ cf ++ [VOp (if tail then OTCallAcc else OCallAcc)])
         tail lv rho r rho3.
 Proof.
@@ -383,7 +383,7 @@ Proof.
     assert (MIm5 : minv m5).
     { destruct MIm3 as [HI GI SP]. constructor; [exact HI|exact GI|].
       cbn [sp scap m5 with_ip with_bp with_stack]. unfold B. lia. }
-    destruct (callee_run4 ps cs body cvals n B e (fst i) (snd i) vs rs rho2 r rho3 m5 lamp IHb MIm5
+    destruct (callee_run4 ps cs bodies cvals n B e (fst i) (snd i) vs rs rho2 r rho3 m5 lamp IHb MIm5
                 ltac:(eapply vrep4_ext; [exact X35|exact V3])
                 ltac:(exists cp, cep; split; [exact Hacc3|exact Hgcp]) eq_refl Hlrs Hn eq_refl
                 ltac:(rewrite Hs5; exact TT2) ltac:(rewrite Hs5; exact TT3) ltac:(rewrite Hs5; exact TT4) Hvl)
@@ -423,7 +423,7 @@ Proof.
       replace (sp m + n + 3) with (sp (pushed (with_ip m3 (lp, q + 1)) (VEp (ep m3))) + 1)
         by (cbn [sp pushed with_scap with_stack with_ip]; rewrite Hsp3; lia).
       apply sget_pushed_top. }
-    destruct (callee_run4 ps cs body cvals n (sp m) (ep m3) lp (q + 1) vs rs rho2 r rho3 m5 lamp IHb MIm5
+    destruct (callee_run4 ps cs bodies cvals n (sp m) (ep m3) lp (q + 1) vs rs rho2 r rho3 m5 lamp IHb MIm5
                 ltac:(eapply vrep4_ext; [exact X35|exact V3])
                 ltac:(exists cp, cep; split; [exact Hacc3|exact Hgcp]) eq_refl Hlrs Hn Hsp5
                 ltac:(rewrite Hk5 by lia; exact Htop3) H52 H53 Hvl)
@@ -605,19 +605,19 @@ Proof.
   apply (exec4_load_global ob s2 _ a k x); auto; rewrite Eh; assumption.
 Qed.
 
-Lemma dyn_lam sc lv rho ps fs body cvals :
+Lemma dyn_lam sc lv rho ps fs bodies cvals :
   Forall2 (fun x v => exists i, pindex x sc = Some i /\ nth_error lv (N.to_nat i) = Some v) (capnames sc fs) cvals ->
-  body_ok sc lv rho (ZLam ps fs body) (R4Clo ps (capnames sc fs) body cvals) rho.
+  body_ok sc lv rho (ZLam ps fs bodies) (R4Clo ps (capnames sc fs) bodies cvals) rho.
 Proof.
   intros Fv f l tail s l' s' code Hwf Hf Hh MI Hcomp Hfwd.
   pose proof Hwf as Hwf'. apply wf4_lam in Hwf'. destruct Hwf' as (Hne & _ & _ & _ & _ & Wb).
   cbn [cell_of4] in *.
-  destruct (lam_static4 sc ps fs body Hwf (statics _ body Wb) f l tail s Hf Hh MI)
+  destruct (lam_static4 sc ps fs bodies Hwf (statics _ bodies Wb) f l tail s Hf Hh MI)
     as (l2 & s2 & lamp & lamF & caps & cb & f' & lam2 & s3 & lam3 & s4 & E & F & _ & MI2 & X2 & _ & _ &
         Hlam & Hem & Fa & Fc & Hbc & Hf' & Hh2 & MI3 & Ecomp & F2 & F3 & X4).
   rewrite E in Hcomp. injection Hcomp as <- <-.
   rewrite F in Hfwd. apply app_inv_head in Hfwd. subst code.
-  apply (exec4_lam s2 _ lamp lamF caps sc ps (capnames sc fs) body tail lv rho cvals Hlam Hem Fa Fc); [|exact Fv].
+  apply (exec4_lam s2 _ lamp lamF caps sc ps (capnames sc fs) bodies tail lv rho cvals Hlam Hem Fa Fc); [|exact Fv].
   exists lamF, caps, cb, f', lam2, s3, lam3, s4.
   split; [exact Hlam|]. split; [exact Hem|]. split; [exact Fa|].
   split.
@@ -755,16 +755,16 @@ Proof.
   - exact Hsem.
 Qed.
 
-Lemma dyn_app_closure sc lv rho f0 args rs rho1 ps cs body cvals rho2 r rho3 :
+Lemma dyn_app_closure sc lv rho f0 args rs rho1 ps cs bodies cvals rho2 r rho3 :
   length rs = length args ->
-  args_okP sc lv rho args rs rho1 -> body_ok sc lv rho1 f0 (R4Clo ps cs body cvals) rho2 ->
-  length rs = length ps -> seq_ok (ps ++ cs) (rs ++ cvals) rho2 body r rho3 ->
+  args_okP sc lv rho args rs rho1 -> body_ok sc lv rho1 f0 (R4Clo ps cs bodies cvals) rho2 ->
+  length rs = length ps -> seq_ok (ps ++ cs) (rs ++ cvals) rho2 bodies r rho3 ->
   body_ok sc lv rho (ZApp f0 args) r rho3.
 Proof.
   intros Hla IHa IHf Hlrs IHb f l tail s l' s' code Hwf Hf Hh MI Hcomp Hfwd.
   destruct (app_shape sc f0 args f l tail s l' s' code Hwf Hf Hh MI Hcomp Hfwd)
     as (f1 & l1 & s1 & ca & l2 & l3 & cf & Wf & Wargs & Hf1 & Hf2 & E1 & F1 & Hh2 & MI1 & L2 & E3 & F3 & X2 & ->).
-  apply (exec4_app_closure s' _ ca cf (len args) tail lv rho rs rho1 ps cs body cvals rho2 r rho3).
+  apply (exec4_app_closure s' _ ca cf (len args) tail lv rho rs rho1 ps cs bodies cvals rho2 r rho3).
   - apply (exec_args4_ext ob s' s1); [exact X2|]. exact (IHa f1 l 0 s l1 _ s1 ca Wargs Hf1 Hh MI E1 F1).
   - rewrite <- L2. exact (IHf f1 l2 false s1 l3 s' cf Wf Hf2 Hh2 MI1 E3 F3).
   - exact Hlrs.
@@ -797,7 +797,7 @@ Proof.
     + intros (Hx & _ & _) f l tail s. apply compile_set_eq. exact Hx.
     + cbn [cell_of4 cell_size]. lia.
     + intros (_ & Hp & We). split; assumption.
-  - intros sc lv rho ps fs body cvals Fv. apply dyn_lam. exact Fv.
+  - intros sc lv rho ps fs bodies cvals Fv. apply dyn_lam. exact Fv.
   - intros sc lv rho f0 args rbs rho1 b rho2 r _ IHa _ IHf Hsem.
     exact (dyn_app_builtin sc lv rho f0 args rbs rho1 b rho2 r (proj1 IHa) IHf Hsem).
   - intros sc lv rho f0 args rs rho1 ps cs bodies cvals rho2 vs pre r rho3 HRa IHa _ IHf Hlrs _ IHb Hvs.
